@@ -11,6 +11,7 @@ import (
 	"encoding/json"
 	"fmt"
 	"io/ioutil"
+	"math"
 	"math/rand"
 	"net"
 	"strconv"
@@ -352,6 +353,15 @@ func runRPCStress(args []string) {
 								close(g.(chan struct{}))
 							}
 						}()
+					}
+					if wideDepth < 0 && rng.Intn(8) == 0 {
+						// a call that cannot even be encoded (NaN has no JSON form): it fails locally and must leave no trace
+						// - in particular it must not disturb the ids of the calls other callers are making right now
+						var out string
+						err := r.Call(ctx, &out, "t_echo", math.NaN(), 0, false)
+						log.emit(J{"ev": "badcall", "ep": ep, "tok": tok, "failed": err != nil})
+						cancel()
+						continue
 					}
 					outstanding.Store(tok, true)
 					log.emit(J{"ev": "call", "ep": ep, "tok": tok})
